@@ -1,5 +1,6 @@
 from __future__ import annotations
 
+import re
 from enum import Enum
 from typing import TYPE_CHECKING
 
@@ -15,6 +16,9 @@ if TYPE_CHECKING:
     from sdc11073 import xml_utils
 
 CHECK_NAMESPACES = False  # can be used to enable additional checks for too many namespaces or undefined namespaces
+
+# characters that cannot be part of an XML 1.0 document
+_NOT_XML_COMPATIBLE = re.compile('[^\t\n\r\x20-\ud7ff\ue000-\ufffd\U00010000-\U0010ffff]')
 
 
 class SoapResponseError(Exception):
@@ -154,7 +158,8 @@ class Fault(MessageType):
         """Add reason text to list."""
         txt = reasontext()
         txt.lang = lang
-        txt.text = text
+        # the text often quotes data of the faulty request (e.g. its path): a fault must always be serializable
+        txt.text = _NOT_XML_COMPATIBLE.sub('\ufffd', text)
         self.Reason.Text.append(txt)
 
     def set_sub_code(self, sub_code: etree.QName):
